@@ -13,7 +13,7 @@ NOTE = ("Trusted: the Coq 8.16.1 kernel (vm_compute for finite sweeps and witnes
 P = {
  "C01": ("Full statement proved: for every wf_packet (all four extension shapes, 0-15 CSRCs, any payload, padding 1-255) Marshal succeeds with MarshalSize bytes and Unmarshal returns an equal packet; same for headers (C01_packet_roundtrip, C01_header_roundtrip).", ""),
  "C02": ("Full statement proved for all byte strings and all previous receiver values: no panic, bounds, payload and extension values are the input bytes at the reported offsets, reuse = fresh (C02_no_panic, C02_bounds, C02_header_bounds, C02_reuse_*).", "Interpretation: a stale ExtensionProfile with the X bit off is not a difference (no accessor observes it); len(Extensions) is compared."),
- "C03": ("Proved: every well-formed RFC 3550/8285 wire image (Spec/Rfc3550.v, padding anywhere, zero-length two-byte elements, legacy blocks) without a reserved id 15 decodes to what it was built from; C03_reencode: EVERY input Packet.Unmarshal accepts into a fresh Packet decodes to a well-formed packet whose Marshal output decodes to the same packet (sole exception, stated: P bit with zero count is refused by Marshal); standalone one-/two-byte views agree with the header. C03_decode_rfc_partial + C03_reserved15_refuted: reserved id 15 is known finding KF-C03-reserved15 (pinned by an upstream test).", "The raw (RFC 3550) view is covered by correspondence and oracle only."),
+ "C03": ("Proved: every well-formed RFC 3550/8285 wire image (Spec/Rfc3550.v, padding anywhere, zero-length two-byte elements, legacy blocks) without a reserved id 15 decodes to what it was built from; C03_reencode: EVERY input Packet.Unmarshal accepts into a fresh Packet decodes to a well-formed packet whose Marshal output decodes to the same packet (sole exception, stated: P bit with zero count is refused by Marshal); standalone one-/two-byte views agree with the header. C03_decode_rfc_partial + C03_reserved15_refuted: reserved id 15 is known finding KF-C03-reserved15 (pinned by an upstream test).", "The raw (RFC 3550) view keeps the byte string it was handed under id 0 (C03_raw_view); all three views re-serialise byte-identically (C03_view_reserialise)."),
  "C04": ("Full statement proved: short destination -> short-buffer error, never Panic; sufficient destination -> exactly Marshal() followed by the untouched tail of the destination, for every prior content (C04_*_short, C04_*_exact).", ""),
  "C05": ("Full statement proved: refinement of Set/Del/Get/GetIDs to an ordered map over all op sequences and the four starts, errors leave the header unchanged, Marshal total on every reachable header, accepted values survive the wire (legacy non-multiple-of-4 is the only refusal).", ""),
  "C06": ("Full statement proved parametrically in the payloader: numbering mod 2^16 across calls, timestamps, marker, payloads unchanged, MTU bound given the payloader honours its budget, abs-send-time on the last packet only, padding packets valid, over arbitrary histories (C06_history).", "The clock and the initial timestamp are parameters (verif hook injects them)."),
